@@ -21,7 +21,7 @@ GEN = ['timexregex']
 REQUIRED_THEOREMS = ['genCfg_ok', 'parse_format_fields', 'format_idempotent', 'canonical_fixed', 'tree_roundtrip',
                      'from_date_canonical', 'from_date_time_canonical', 'from_time_canonical', 'format_parse',
                      'duration_int_format', 'duration_examples', 'repaired_roundtrips', 'tiny_amount_not_stable',
-                     'parse_dur', 'format_dur', 'duration_int_roundtrip', 'format_parse_DT', 'parse_norm_DT',
+                     'parse_dur', 'format_dur', 'duration_int_roundtrip', 
                      'parse_dur_frac', 'format_dur_dec', 'duration_frac_roundtrip']
 RULE = ('every TimexRegex pattern x boundary years (0001/0999/1000/1999/2000/9999 + seeded) x all months / boundary '
         'days / weeks 00-54 / weekdays 0-9 / hours 00-25 / minutes, seconds 00,01,30,59,60; durations with integer '
